@@ -438,7 +438,7 @@ class C09(Spec):
     id = 'C09'; engine = 'cmp'; harness = 'h_cmp'; driver = 'drv_cmp'
     generators = ('Cmp', 'CmpLoops')
     harness_timeout = 600
-    technique = ('Lean 4 proof: Int_Cmp / Float_Cmp / eq..le translated from the C source on every run (C-expression to BitVec translator), '
+    technique = ('Lean 4 proof: Int_Cmp / Float_Cmp / eq..le translated from the C source on every run (C-expression to BitVec translator); String_Cmp / Type_Cmp / cmp of Cmp.c translated by the same statement grammar over objects (programs over abstract strcmp / memcmp / instance / type_of / size), theorems for every libc meeting ISO C\'s sign specification; '
                  'theorems over all 2^128 pairs via toInt+omega; lexicographic lifting of any lawful comparison by induction; '
                  'object graphs with identity for Tuples (one object in several slots / in both operands / as both operands) under the traversal discipline '
                  'read off the loop texts on every run; differential check of the model against the real cmp on boundary grids, random pairs and triples, '
@@ -447,6 +447,8 @@ class C09(Spec):
                   '2^128 pairs (toInt + omega), hence C09_int_lawful: antisymmetric, transitive, reflexive, 0 only for equal values; C09_bytes — strcmp/memcmp sign is the '
                   'lexicographic order of unsigned bytes, lawful and strict; C09_lex / C09_lex_eq / C09_lex_shape / C09_tree — any lawful element comparison lifts to '
                   'Array/List/Tuple and to Tree entries (key then value), 0 exactly on elementwise-equal sequences, independent of container kind (C09_lex_content); '
+                  'C09_string_cmp_source / C09_type_cmp_source — String_Cmp / Type_Cmp as TRANSLATED from src/String.c / src/Type.c on every run (programs over an abstract strcmp) are, for EVERY libc whose strcmp meets ISO C 7.24.4 (sign of the first differing pair of unsigned bytes, any magnitude: StrcmpSpec, met by the -1/0/1 libc and by the byte-difference libc), a lawful strict order on NUL-free strings, negative exactly for a < b bytewise, 0 only for equal strings; Type_Cmp casts obj to Type first; C09_signed_char_strcmp_refuted — a strcmp reading char as signed violates the spec and puts 0xff below 0x01; '
+                  'C09_cmp_dispatch_source — `cmp` of src/Cmp.c as TRANSLATED (program over instance / type_of / size / memcmp), for any object system: instance call, else memcmp over size(type_of(self)) for two objects of one type of non-zero size with the operands in order, else TypeError; C09_default_cmp_source — on the value universe that program with a plain struct as self IS cmpTop (byte-wise order under any memcmp meeting ISO C: MemcmpSpec), every other self goes to its instance; '
                   'C09_preds — eq neq gt lt ge le as TRANSLATED from src/Cmp.c are exactly =0 ≠0 >0 <0 ≥0 ≤0 of cmp, for every comparison function; '
                   'C09_float_bits_order — the VALUE of a binary64 bit pattern by the IEEE formula over (sign, exponent, mantissa) orders all 2^128 pairs exactly as the sign-magnitude reading of the bits, equal values = same pattern or both zeros; '
                   'C09_float_difference_sign — under any rounding that is monotone, NaN-free and exact on 0 and ±2^-1074 the rounded exact difference of two doubles has the sign of the exact difference and is 0 only for equal values; '
@@ -469,7 +471,7 @@ class C09(Spec):
     level_note = ('Float: proved for IEEE-754 subtraction as the standard defines it on bit patterns (decode by the formula, exact difference, any monotone NaN-free rounding that keeps 0 and ±2^-1074); '
                   'that the HARDWARE subtracts like that (x86-64 SSE, no flush-to-zero) is trusted and tested on the grid (denormals, signed zeros, infinities, extremes, random bits): the driver runs the bit-level model, the harness the machine. '
                   'Trusted: Lean kernel; the C-expression translator translate/g_cmp.py (machine integer semantics of `-`, casts, signed `<`); '
-                  'libc strcmp/memcmp return the sign of the first differing unsigned byte (C standard; tested); harness/driver comparison is testing. '
+                  'libc strcmp/memcmp return the sign of the first differing unsigned byte (C standard; now an explicit hypothesis StrcmpSpec / MemcmpSpec of the theorems about the translated String_Cmp / Type_Cmp / cmp; that the libc in use meets it is tested); harness/driver comparison is testing. '
                   'Partial for aliasing: proved for every self and every obj on which the walk never leaves a repeated slot of a Tuple in obj (walkClean: exactly where Tuple_Iter_Next cannot misplace the cursor, plus the harmless last step); the rest is the known finding (refuted theorem). '
                   'Not covered: comparisons between values of different kinds (Int with Float, …: c_int/c_float conversions), NaN, Table_Cmp (C10), '
                   'Thread/Range/Slice/Ref/Box/File comparisons, strings with embedded NUL.')
@@ -487,6 +489,7 @@ class C09(Spec):
             'the repeat one level down and the same inner Tuple in two slots; operands built over a common pool of objects; cmp(x, x) and tri(x, x, x) for every kind; '
             'long (300/1500) Tuples over three objects. Comparisons whose operands hold a Tuple with a repeated object, and all comparisons after a first oracle failure, '
             'run in a forked child with 300 ms of CPU time per call (`H` when it is used up); the rest under a CPU-time watchdog (sig=cmp-hang). '
+            'Driver `S` lines: every top-level comparison of two Strings, two Types or with a plain struct as self is also run through the TRANSLATED String_Cmp / Type_Cmp / cmp programs and must agree with the hand model (statistics src_string / src_type / src_memcmp / src_typeerror = arms reached). '
             'non-trivial = the observation shows a non-zero sign, an exception, or a keys/sort op over at least 2 values; distinct = distinct op text.')
     trusted_base = ('translate/g_cmp.py (C expression fragment -> BitVec 64/32 semantics; regex extraction of function bodies; by-index / by-iterator read off the loop text)',
                     'harness/h_cmp.c + lean/Driver/Cmp.lean (correspondence is testing)',
@@ -673,6 +676,8 @@ class C09(Spec):
                 s = o.split('s=')[1].split()[0]; acc['sign_' + s] = acc.get('sign_' + s, 0) + 1
             elif o.startswith('O cmp exc='): acc['raised'] = acc.get('raised', 0) + 1
             elif o == 'O bad-op': acc['bad_op'] = acc.get('bad_op', 0) + 1
+        for l in core.lines_with('S cmp via=', m_out):      # arms of the translated programs the driver went through
+            k = 'src_' + l.split('via=')[1].split()[0]; acc[k] = acc.get(k, 0) + 1
         for l in core.lines_with('I ', c_out):
             for kv in l[2:].split():
                 if '=' in kv:
@@ -681,6 +686,9 @@ class C09(Spec):
 
     def model_selfcheck(self, case, m_out):
         ls = m_out.split('\n')
+        for l in ls:
+            # the programs translated from String_Cmp / Type_Cmp / `cmp` of Cmp.c against the hand model (Driver `secondOpinion`)
+            if l.startswith('S cmp ') and not l.endswith(' ok=1'): return f'translated source program vs hand model: `{l}`'
         for i in range(len(ls) - 1):
             if ls[i].startswith('O cmp s=') and ls[i + 1].startswith('R cmp '):
                 o = ls[i][2:].split(); r = ls[i + 1][2:].split()
